@@ -490,7 +490,7 @@ func iterConfigsForBatch(c *explore.Ctx, scope string, idx int64, batch []model.
 
 // largeIterWalks: adaptive-mode multi-chunk lists of real size: full Next walk and Advance strides.
 func largeIterWalks(c *explore.Ctx) {
-	sizes := []int{1025, 2049}
+	sizes := []int{1024, 1025, 2048, 2049}
 	if c.Thorough() {
 		sizes = gen.LargeSizes
 	}
